@@ -132,18 +132,32 @@ const (
 	verifTamperTwo     // two bits of the payload batch, both positions symbolic
 	verifTamperResp    // arbitrary non-zero xor mask on the challenge response (x, t0, t1)
 	verifTamperRow     // arbitrary non-zero xor mask on ONE ROW of the payload u-matrix (any set of columns)
+	verifTamperCheckHi // as verifTamperCheck, rows 240..255
+	verifTamperCross   // one bit of the payload batch AND one bit of the check batch in the same symbolic column, rows symbolic
 )
 
 // verifFlip xors a one-hot mask at symbolic (col,row) into a u-matrix chunk
 // of byteRows bytes per column.
 func verifFlip(chunk []byte, byteRows, rows int, tag string) {
-	col := zzverif.Int(tag+".col", 0, K-1)
-	row := zzverif.Int(tag+".row", 0, rows-1)
+	verifFlipCol(chunk, byteRows, rows, tag, zzverif.Int(tag+".col", 0, K-1))
+}
+
+func verifFlipCol(chunk []byte, byteRows, rows int, tag string, col int) {
+	verifFlipColWin(chunk, byteRows, 0, rows-1, tag, col)
+}
+
+// verifFlipColWin: the flipped row is any row of the window [lo, hi] (only
+// the bytes of the window become symbolic, which keeps the sender's
+// transposition of the 256-row check batch mostly concrete).
+func verifFlipColWin(chunk []byte, byteRows, lo, hi int, tag string, col int) {
+	row := zzverif.Int(tag+".row", lo, hi)
 	pos := col*byteRows + row/8
 	bit := byte(1) << uint(row%8)
-	for k := range chunk {
-		if k == pos {
-			chunk[k] ^= bit
+	for c := 0; c < K; c++ {
+		for k := c*byteRows + lo/8; k <= c*byteRows+hi/8; k++ {
+			if k == pos {
+				chunk[k] ^= bit
+			}
 		}
 	}
 }
@@ -194,7 +208,14 @@ func verifC15RunK(n, deltaK, tamper int, keySeed uint64) {
 	case verifTamperPayload:
 		verifFlip(q.data[0], byteRows, n, "flip")
 	case verifTamperCheck:
-		verifFlip(q.data[1], 32, 256, "flip")
+		verifFlipColWin(q.data[1], 32, 0, 15, "flip", zzverif.Int("flip.col", 0, K-1)) // check-batch rows 0..15
+	case verifTamperCheckHi:
+		verifFlipColWin(q.data[1], 32, 240, 255, "flip", zzverif.Int("flip.col", 0, K-1)) // check-batch rows 240..255
+	case verifTamperCross:
+		// the same (symbolic) column in both batches, independent symbolic rows
+		col := zzverif.Int("flip.col", 0, K-1)
+		verifFlipCol(q.data[0], byteRows, n, "flipP", col)
+		verifFlipColWin(q.data[1], 32, 0, 15, "flipC", col) // check-batch rows 0..15
 	case verifTamperTwo:
 		verifFlip(q.data[0], byteRows, n, "flip1")
 		verifFlip(q.data[0], byteRows, n, "flip2")
@@ -257,20 +278,22 @@ func verifC15Honest9()  { verifC15Run(9, 2, verifTamperNone) }
 func verifC15Honest9a() { verifC15Run(9, 0, verifTamperNone) }
 func verifC15Honest9s() { verifC15Run(9, -1, verifTamperNone) }
 
-func verifC15Flip9d0() { verifC15Run(9, 0, verifTamperPayload) }
-func verifC15Flip9d1() { verifC15Run(9, 1, verifTamperPayload) }
-func verifC15Flip9d2() { verifC15Run(9, 2, verifTamperPayload) }
-func verifC15Flip3d1() { verifC15Run(3, 1, verifTamperPayload) }
-func verifC15Chk9d1()  { verifC15Run(9, 1, verifTamperCheck) }
-func verifC15Chk9d2()  { verifC15Run(9, 2, verifTamperCheck) }
-func verifC15Two9d1()  { verifC15Run(9, 1, verifTamperTwo) }
-func verifC15Two9d2()  { verifC15Run(9, 2, verifTamperTwo) }
-func verifC15Row9d1()  { verifC15Run(9, 1, verifTamperRow) }
-func verifC15Row9d2()  { verifC15Run(9, 2, verifTamperRow) }
-func verifC15Resp9d1() { verifC15Run(9, 1, verifTamperResp) }
-func verifC15Resp9d2() { verifC15Run(9, 2, verifTamperResp) }
-func verifC15Flip9s()  { verifC15Run(9, -1, verifTamperPayload) }
-func verifC15Chk9s()   { verifC15Run(9, -2, verifTamperCheck) }
+func verifC15Flip9d0()  { verifC15Run(9, 0, verifTamperPayload) }
+func verifC15Flip9d1()  { verifC15Run(9, 1, verifTamperPayload) }
+func verifC15Flip9d2()  { verifC15Run(9, 2, verifTamperPayload) }
+func verifC15Flip3d1()  { verifC15Run(3, 1, verifTamperPayload) }
+func verifC15Chk9d1()   { verifC15Run(9, 1, verifTamperCheck) }
+func verifC15Chk9d2()   { verifC15Run(9, 2, verifTamperCheck) }
+func verifC15Two9d1()   { verifC15Run(9, 1, verifTamperTwo) }
+func verifC15Two9d2()   { verifC15Run(9, 2, verifTamperTwo) }
+func verifC15Cross9d1() { verifC15Run(9, 1, verifTamperCross) }
+func verifC15Cross9d2() { verifC15Run(9, 2, verifTamperCross) }
+func verifC15Row9d1()   { verifC15Run(9, 1, verifTamperRow) }
+func verifC15Row9d2()   { verifC15Run(9, 2, verifTamperRow) }
+func verifC15Resp9d1()  { verifC15Run(9, 1, verifTamperResp) }
+func verifC15Resp9d2()  { verifC15Run(9, 2, verifTamperResp) }
+func verifC15Flip9s()   { verifC15Run(9, -1, verifTamperPayload) }
+func verifC15Chk9s()    { verifC15Run(9, -2, verifTamperCheck) }
 
 // verifC15MulBasis: linearity slice of the pure-Go multiplier: for every
 // basis vector e_i, mul128Generic(e_i, b) and mul128Generic(b, e_i) are the
